@@ -40,7 +40,8 @@ Record guards := {
   g_kt7797 : bool;           (* fix09 rfc7797/compact.py:deserialize_compact  alg.check_key_type(key) *)
   g_ek_default : bool;       (* fix10 rfc7516/json.py: encrypted_key absent = b"" *)
   g_rec_header : bool;       (* fix11 util.py:json_b64decode  except RecursionError *)
-  g_rec_claims : bool        (* fix11 jwt.py:decode  except RecursionError *)
+  g_rec_claims : bool;       (* fix11 jwt.py:decode  except RecursionError *)
+  g_use_str : bool           (* fix12 rfc7517/models.py:validate_dict_key_use_operations  isinstance(use, str) *)
 }.
 
 Definition all_guards : guards :=
@@ -48,13 +49,13 @@ Definition all_guards : guards :=
      g_dict_7797_json := true; g_dict_jwe_json := true; g_crit := true; g_enc_present := true;
      g_algstr_jwe := true; g_algstr_jws := true; g_crv_ec := true; g_crv_okp := true;
      g_p2c := true; g_zlib := true; g_eddsa := true; g_kt7797 := true; g_ek_default := true;
-     g_rec_header := true; g_rec_claims := true |}.
+     g_rec_header := true; g_rec_claims := true; g_use_str := true |}.
 
 Definition guards_list (g : guards) : list bool :=
   [g_dict_jws_compact g; g_dict_jwe_compact g; g_dict_jws_json g; g_dict_7797_json g;
    g_dict_jwe_json g; g_crit g; g_enc_present g; g_algstr_jwe g; g_algstr_jws g; g_crv_ec g;
    g_crv_okp g; g_p2c g; g_zlib g; g_eddsa g; g_kt7797 g; g_ek_default g; g_rec_header g;
-   g_rec_claims g].
+   g_rec_claims g; g_use_str g].
 
 (* ------------------------------------------------------------------ *)
 (* world: keys and registries                                          *)
@@ -605,11 +606,12 @@ Fixpoint ops_loop (ops : list pv) (allowed_ops : list string) : res unit :=
   | [] => Ok tt
   | o :: r => if choice_mem allowed_ops o then ops_loop r allowed_ops else Err EValue
   end.
-Definition validate_use_ops (d : pv) : res unit :=
+Definition validate_use_ops (g : guards) (d : pv) : res unit :=
   do hu <- py_in (PS "use") d;
   do ho <- py_in (PS "key_ops") d;
   if hu && ho then
     do u <- py_getitem_str d (SK "use");
+    if g_use_str g && negb (is_str u) then Err EValue else                 (* fix12 *)
     match u with
     | PStr us =>
         match find (fun p => str_eqb (SK (fst p)) us) use_key_ops_registry with
@@ -624,10 +626,10 @@ Definition validate_use_ops (d : pv) : res unit :=
     end
   else Ok tt.
 
-Definition validate_dict_key (value_reg : list kparam) (d : pv) : res unit :=
+Definition validate_dict_key (g : guards) (value_reg : list kparam) (d : pv) : res unit :=
   do _ <- validate_registry_header (map kp_as_h jwk_parameter_registry) d true;
   do _ <- validate_registry_header (map kp_as_h value_reg) d true;
-  validate_use_ops d.
+  validate_use_ops g d.
 
 (* recipient_key.import_key(headers["epk"]) : the class is the recipient key's class *)
 Definition import_epk (g : guards) (P : prims) (rk : key) (epk : pv) : res key :=
@@ -635,7 +637,7 @@ Definition import_epk (g : guards) (P : prims) (rk : key) (epk : pv) : res key :
   | PDict d =>
       let is_ec := String.eqb (k_kty rk) "EC" in
       let vreg := if is_ec then value_registry_EC else value_registry_OKP in
-      do _ <- validate_dict_key vreg epk;
+      do _ <- validate_dict_key g vreg epk;
       let priv := dmem d (SK "d") in
       do crv <- py_getitem_str epk (SK "crv");
       let known := if is_ec then name_in_list (map cv_name ec_curves) crv
@@ -645,7 +647,7 @@ Definition import_epk (g : guards) (P : prims) (rk : key) (epk : pv) : res key :
       else
         do k <- p_import_epk P (k_kty rk) d priv;
         (* cls(raw_key, value, parameters) validates {**value, "kty": key_type} again *)
-        do _ <- validate_dict_key vreg (PDict (dset d (SK "kty") (PS (k_kty rk))));
+        do _ <- validate_dict_key g vreg (PDict (dset d (SK "kty") (PS (k_kty rk))));
         Ok k
   | _ => Err EOracleMiss      (* unreachable: "epk" is validated as a JWK (dict) by check_header *)
   end.
